@@ -102,6 +102,9 @@ def build_scenarios(vectors, table_path, rng, thorough):
         elif op == "msg":
             base = {"m": v["m"], "head": v["head"], "rel": v["rel"]}
             sc.append(dict(base, id="publish-%d" % i, op="publish"))
+            if not v["m"].get("dup") and i % 4 == 0:
+                # the caller's struct still carries Dup=true from an earlier use: a first transmission has DUP=0
+                sc.append(dict(base, id="publish-staledup-%d" % i, op="publish", staleDup=True))
             wk = json.dumps([v["head"], v["m"]["payload"]])
             if wk not in seen_wire:
                 seen_wire.add(wk)
